@@ -1,4 +1,7 @@
-(* C10 -- Results independent of reader chunking; I/O faults surface as errors.            (PARTIAL, grows with the models)
+(* C10 -- Results independent of reader chunking; I/O faults surface as errors.
+   (FULL at model level for: the container layer (CIO), the whole lossless decoder (LLIO, RC), read_image of stills over the file reader incl. the VP8 decoder's reads (GIO: fault surfacing;
+   its equality with the fault-free pure model is proved for the Take-limited reads and init_partitions and otherwise tied by correspondence), the encoder's sink (CIO), the bit reader (BR, BRIO);
+   read_frame's payload reads over a failing reader are decided on the implementation only.)
    Proved here: the std::io contracts every non-bit-level read and every write of the crate go through, modelled with
    an explicit delivery schedule (Lib/IO.v):
      * read_exact delivers the same bytes and ends at the same position for every schedule of partial reads, and is
@@ -27,6 +30,7 @@ From WebP Require Lib.Arr Spec.PrefixCode Model.LosslessLib Model.Lossless Proof
   Proofs.C01_stream Proofs.C01_symbols Proofs.C01_codes Proofs.C01_pixlib Proofs.C01_pixels Proofs.C01_groups Proofs.C01_gspec Proofs.C01_final Proofs.C01_top.
 From WebP Require Model.BitReaderIO Proofs.BitReaderIO_laws Proofs.BitReaderIO_main.
 From WebP Require Model.LosslessIO Proofs.LosslessIO_laws Proofs.LosslessIO_refine Proofs.LosslessIO_main.
+From WebP Require Model.ReadImageIO Proofs.ReadImageIO_laws Proofs.ReadImageIO_refine Proofs.ReadImageIO_main.
 Import ListNotations.
 
 Theorem read_exact_any_schedule : forall s1 s2 r want, want <= length (remaining r) ->
@@ -332,3 +336,82 @@ Module LLIO.
     /\ (forall s0, V.read_header (V.Stream [] ex_data) = Some (2, 1, s0) -> in_format 2 1 s0).
   Proof. exact Proofs.LosslessIO_main.lossless_fault_hypotheses_satisfiable. Qed.
 End LLIO.
+
+(* ---------------- read_image (stills) over the FILE reader with every I/O call counted and one injected failure (Model/ReadImageIO.v: range_reader,
+   the VP8 decoder's reads through Take incl. std's read_to_end probing, the lossless decoder's fill_buf calls through Take, read_alpha_chunk; tied by the
+   c10glue correspondence on the public API: outcome incl. error variant, pixels, call counts) ---------------- *)
+Module GIO.
+  Import Lib.Res Model.Container Model.ContainerIO Proofs.ContainerIO_prims Proofs.ContainerIO_laws Proofs.ContainerIO_refine
+    Model.ReadImageIO Proofs.ReadImageIO_laws Proofs.ReadImageIO_refine Proofs.ReadImageIO_main.
+  Local Open Scope Z_scope.
+
+  Theorem glue_fault_law : forall (dec : decoder) (buf : list Z), FaultLaw (read_image_m dec buf).
+  Proof. exact FaultLaw_read_image_m. Qed.
+
+  Theorem glue_fault_surfaces : forall (dec : decoder) (buf : list Z) (s : rstate) (k : Z),
+    r_fail_at s = None -> r_fail_eof s = false ->
+    let free := read_image_io dec buf s in
+    let faulty := read_image_io dec buf (set_fail s (Some k)) in
+    (r_calls s <= k < r_calls (snd free) -> fst faulty = (IErr XFault, None) /\ r_calls (snd faulty) = k + 1)
+    /\ (k < r_calls s \/ r_calls (snd free) <= k -> fst faulty = fst free /\ r_calls (snd faulty) = r_calls (snd free)).
+  Proof. exact read_image_fault_surfaces. Qed.
+
+  Theorem glue_fault_never_ok_nor_panic : forall dec buf s k, r_fail_at s = None -> r_fail_eof s = false ->
+    r_calls s <= k < r_calls (snd (read_image_io dec buf s)) ->
+    forall b p, fst (fst (read_image_io dec buf (set_fail s (Some k)))) <> IOk b
+                /\ fst (fst (read_image_io dec buf (set_fail s (Some k)))) <> IPanic p.
+  Proof. exact read_image_fault_never_ok_nor_panic. Qed.
+
+  Theorem open_and_read_fault_surfaces : forall (sched : Z -> Z) (d : list Z) (fill k : Z),
+    let free := open_and_read fill (init sched None d) in
+    let faulty := open_and_read fill (init sched (Some k) d) in
+    (0 <= k < r_calls (snd free) -> fst faulty = IErr XFault /\ r_calls (snd faulty) = k + 1)
+    /\ (k < 0 \/ r_calls (snd free) <= k -> fst faulty = fst free /\ r_calls (snd faulty) = r_calls (snd free)).
+  Proof. exact Proofs.ReadImageIO_main.open_and_read_fault_surfaces. Qed.
+
+  Theorem take_read_exact_refines : forall d s lim n, okstate d s -> 0 <= lim ->
+    match Model.Vp8Parse.read_exact (tk lim s) n with
+    | Ok (b, g') => exists s', take_read_exact lim n s = (IOk b, s') /\ okstate d s' /\ tk (lim - len b) s' = g' /\ 0 <= lim - len b
+    | Err e => e = EIo /\ exists s', take_read_exact lim n s = (IErr XEof, s') /\ okstate d s'
+    | _ => False
+    end.
+  Proof. exact take_read_exact_spec. Qed.
+
+  Theorem take_read_to_end_refines : forall d s lim, okstate d s -> 0 <= lim ->
+    exists s', take_read_to_end lim s = (IOk (tk lim s), s') /\ okstate d s'.
+  Proof. exact take_read_to_end_spec. Qed.
+
+  Theorem vp8_partition_reads_refine : forall d lim v n s, okstate d s -> 0 <= lim -> tk lim s = Model.Vp8Parse.v_r v ->
+    RefOK d (init_partitions_io lim v n s) (Model.Vp8Parse.init_partitions v n).
+  Proof. exact init_partitions_refines. Qed.
+
+  Theorem glue_error_or_pixels_partial : forall dec buf s px,
+    r_fail_at s = None -> r_fail_eof s = false ->
+    fst (read_image_io dec buf s) = (IOk tt, Some px) ->
+    forall k, fst (read_image_io dec buf (set_fail s (Some k))) = (IErr XFault, None)
+              \/ fst (read_image_io dec buf (set_fail s (Some k))) = (IOk tt, Some px).
+  Proof. exact read_image_io_error_or_pixels_partial. Qed.
+
+  (* a 39 x 2 lossy still written by libwebp (4 token partitions, the payload of Proofs/VP8_frame_main.ex_payload) as a simple file *)
+  Definition gio_payload : list Z := [240; 3; 0; 157; 1; 42; 39; 0; 2; 0; 63; 53; 64; 205; 102; 165; 163; 133; 84; 82; 169; 162; 115; 0; 92; 250; 189; 8; 99; 20; 244; 193; 94; 164; 47; 183; 21; 104; 95; 0; 0; 56; 0; 0; 2; 0; 0; 2; 0; 0; 246; 193; 39; 200; 231; 123; 62; 12; 254; 232; 250; 203; 239; 168; 98; 99; 179; 171; 153; 179; 141; 60; 230; 191; 223; 248; 1; 226; 88; 178; 9; 185; 8; 186; 145; 88; 7; 197; 10; 66; 55; 120; 164; 30; 202; 219; 6; 78; 254; 140; 27; 10; 169; 97; 128; 0; 0; 0; 0; 0; 0; 0].
+  Definition gio_file : list Z := [82;73;70;70; 124;0;0;0; 87;69;66;80; 86;80;56;32; 111;0;0;0] ++ gio_payload ++ [0].
+  (* (calls after new, 0 = Ok | 1 = the injected fault | 2 = UnexpectedEof | 3 = another error | 4 = panic / fuel, buffer length or -1, calls at the end) *)
+  Definition gio_summary (x : ires decoder * Z * option (ires unit * option (list Z) * Z)) : Z * Z * Z * Z :=
+    match x with
+    | (_, c0, Some (r, ob, c1)) =>
+        (c0, match r with IOk _ => 0 | IErr XFault => 1 | IErr XEof => 2 | IErr _ => 3 | _ => 4 end,
+         match ob with Some b => len b | None => -1 end, c1)
+    | (_, c0, None) => (c0, 9, -1, -1)
+    end.
+
+  (* windows of 7 bytes: new = 10 calls, read_image = 23 more (seek, 4 header reads, first partition, sizes, 3 sized partitions,
+     read_to_end); whole-file windows: 11; a fault at each of the 23 calls gives the I/O error after k + 1 calls, at call 33 nothing *)
+  Example glue_fault_example :
+    gio_summary (rio_eval (sched_const 7) None gio_file 0) = (10, 0, 234, 33)
+    /\ gio_summary (rio_eval sched_whole None gio_file 0) = (10, 0, 234, 21)
+    /\ forallb (fun k => match gio_summary (rio_eval (sched_const 7) (Some k) gio_file 0) with
+                         | (c0, r, b, c1) => andb (andb (andb (c0 =? 10) (r =? 1)) (b =? -1)) (c1 =? k + 1) end)
+               [10; 11; 12; 13; 14; 15; 16; 17; 18; 19; 20; 21; 22; 23; 24; 25; 26; 27; 28; 29; 30; 31; 32] = true
+    /\ gio_summary (rio_eval (sched_const 7) (Some 33) gio_file 0) = (10, 0, 234, 33).
+  Proof. vm_compute. repeat split; reflexivity. Qed.
+End GIO.
